@@ -60,6 +60,8 @@ fn build_reply(recipe: &str, k: &[u8], spk: &[u8], spk_other: &[u8], client_pka:
         "sigzero" => { let mut p = honest_pka.clone(); for i in 4..12 { if i < p.len() { p[i] = 0; } } ts_request(None, Some(&p), 2) }
         // validly sealed and signed replies whose plaintext is NOT key + 1: a PROPER prefix of it (at most n bytes), or it followed by bytes
         "plen" => { let n: usize = arg.parse().unwrap_or(1); ts_request(None, Some(&seal.seal(&plus1[..n.min(plus1.len() - 1)])), 2) }
+        // key + 1 with one bit changed in the k-th byte from the HIGH-order end (the integer is little-endian), validly sealed
+        "phigh" => { let k: usize = arg.parse().unwrap_or(0); let mut v = plus1.clone(); let i = v.len() - 1 - k.min(v.len() - 1); v[i] ^= 1; ts_request(None, Some(&seal.seal(&v)), 2) }
         "pext" => { let mut v = plus1.clone(); v.extend(unhex(arg)); ts_request(None, Some(&seal.seal(&v)), 2) }
         // a well-formed TSRequest whose pubKeyAuth token is cut to n bytes (shorter than the 16-byte signature)
         "pkacut" => { let n: usize = arg.parse().unwrap_or(0); ts_request(None, Some(&honest_pka[..n.min(honest_pka.len())]), 2) }
@@ -262,6 +264,14 @@ pub fn generate(thorough: bool, seed: u64, part: (usize, usize), em: &mut Emitte
         // truncations: every prefix (thorough) / sampled
         let total = 4 + 5 + 4 + 16 + 270 + 2;   // upper bound of the honest reply length
         for n in 0..total { if thorough || n < 24 || n % 23 == 0 || n + 6 > total { let mut c = b.clone(); c.reply = format!("trunc:{}", n); if mine(&mut idx) { run(em, &c); } } }
+    }
+    // a 4096-bit RSA certificate (526 bytes of public key): honest replies, and key + 1 wrong in one high-order byte
+    // only (the end of the modulus, the public exponent) or at other positions — the whole value is compared, whatever its size
+    if part.0 == 0 {
+        for (i, rc) in ["honest", "phigh:0", "phigh:3", "phigh:12", "phigh:13", "phigh:100", "phigh:300", "phigh:525", "off:2", "plen:525", "plen:513", "pext:01"].iter().enumerate() {
+            let mut c = base_case(&mut r, i); c.id = 4; c.reply = rc.to_string(); run(em, &c);
+        }
+        for (i, rc) in ["phigh:0", "phigh:1", "phigh:269"].iter().enumerate() { let mut c = base_case(&mut r, i); c.id = 1; c.reply = rc.to_string(); run(em, &c); }
     }
     // adversaries that never learn the account key (a guessed all-zero session key; the key field of the
     // AUTHENTICATE message used as the key, also when the CHALLENGE does not offer key exchange; a replay of
